@@ -46,6 +46,9 @@ pub enum StoreKind {
     Plain,
     /// random eviction with this memory limit
     Random(u64),
+    /// random eviction with this memory limit, built the way the server builds it
+    /// (`MemcacheStoreBuilder::from_config`); the harness then has no handle on the layers below
+    Built(u64),
 }
 
 /// The store stack of one case; handles to each layer for the monitors.
@@ -67,6 +70,11 @@ impl Stack {
             StoreKind::Random(l) => {
                 let p = Arc::new(RandomPolicy::new(inner.clone(), l));
                 (Some(p.clone()), p)
+            }
+            StoreKind::Built(l) => {
+                let cfg = memcrs::memcache::builder::MemcacheStoreConfig::new(l, memcrs::memcache::eviction_policy::EvictionPolicy::Random);
+                let t: Arc<dyn memcrs::server::timer::Timer + Send + Sync> = timer.clone();
+                (None, memcrs::memcache::builder::MemcacheStoreBuilder::from_config(cfg, t))
             }
         };
         let memc = Arc::new(MemcStore::new(top.clone()));
